@@ -100,7 +100,8 @@ fn same(model: &Value, dump: &Value) -> bool {
                     Some(w) => {
                         if k == "probs" {
                             let (x, y) = (v.as_array().unwrap(), w.as_array().unwrap());
-                            x.len() == y.len() && x.iter().zip(y.iter()).all(|(r, f)| util::close(f.as_f64().unwrap(), util::rat(r), 1e-14))
+                            // (a non-finite probability is serialised as null: never equal)
+                            x.len() == y.len() && x.iter().zip(y.iter()).all(|(r, f)| f.as_f64().map_or(false, |p| util::close(p, util::rat(r), 1e-14)))
                         } else if k == "pay" {
                             v.as_i64().map(|i| i as f64) == w.as_f64() || (w.as_f64().is_none() && v.as_i64().unwrap_or(0).abs() > 999000)
                         } else {
